@@ -7,6 +7,9 @@
 //	dec/<Type>  JSON shape grammar applied to every registered member, dec/leaf for
 //	            the codec's leaf types on their own
 //	aes         sealing: length x pattern x key x API x attack, full product
+//	aes-keys    sealing under related keys: base x seal-key variant x open-key variant x
+//	            length x pattern x API (relkeys_test.go)
+//	aes-op      op.NewAESCrypto with [32]byte keys that differ in one bit / a tail
 //
 // The registered member names of every type are derived by reflection over
 // the json tags (encoding/json dominance rules), so new members are followed.
@@ -23,7 +26,7 @@ func TestMain(m *testing.M) { engine.Main(m) }
 
 func TestCheck(t *testing.T) {
 	c := engine.Start(t, "C12")
-	c.SetRule("E1 per claims type: (custom-map alphabet, incl. one colliding key per registered JSON member) x all <=k member deviations from the zero value, Marshal+Unmarshal of the real code judged by a reference codec; per type every member x JSON shape grammar (<=k members at once) judged by the per-category decoding contract; AES sealing full product length x pattern x key x api x attack; distinct = (part, oracle rule, observed outcome class)")
+	c.SetRule("E1 per claims type: (custom-map alphabet, incl. one colliding key per registered JSON member) x all <=k member deviations from the zero value, Marshal+Unmarshal of the real code judged by a reference codec; per type every member x JSON shape grammar (<=k members at once) judged by the per-category decoding contract; AES sealing full product length x pattern x key x api x attack, and base key x seal-key variant x open-key variant (cut / zero- or otherwise extended / one byte flipped) x length x pattern x api, and op.NewAESCrypto keys differing in one bit per byte position; distinct = (part, oracle rule, observed outcome class)")
 	c.Assume("encoding/json (generic map decoding), encoding/base64, crypto/aes and golang.org/x/text/language.Parse are correct (they are the reference for document equality, raw base64url and BCP47 validity)",
 		"oidc.Time values are enumerated within +-2^53 s (JSON numbers are float64 in this codec)",
 		"a custom key that collides with a registered member that is NOT set is judged Either (the statement only speaks about set members)",
@@ -88,6 +91,16 @@ func TestCheck(t *testing.T) {
 	c.RunE1(engine.E1{Part: "aes", Space: as, K: len(as), Skip: aesSkip(as),
 		NewWorker: func(int) func(engine.Vec) engine.Result {
 			return func(v engine.Vec) engine.Result { return runAES(as, v) }
+		}})
+	rks := relKeysSpace(c.Thorough())
+	c.RunE1(engine.E1{Part: "aes-keys", Space: rks, K: len(rks), Skip: relKeysSkip(rks),
+		NewWorker: func(int) func(engine.Vec) engine.Result {
+			return func(v engine.Vec) engine.Result { return runRelKeys(rks, v) }
+		}})
+	ops := opCryptoSpace(c.Thorough())
+	c.RunE1(engine.E1{Part: "aes-op", Space: ops, K: len(ops), Skip: opCryptoSkip(ops),
+		NewWorker: func(int) func(engine.Vec) engine.Result {
+			return func(v engine.Vec) engine.Result { return runOpCrypto(ops, v) }
 		}})
 	c.Finish()
 }
